@@ -48,6 +48,12 @@ def Entry.dropSub (e : Entry) (rs : Nat) (sub : SubRef) : Entry :=
   let e1 := { e with ress := tset e.ress rs r1 }
   if r1.query != "" && r1.subs.isEmpty then e1.unregisterRes rs else e1
 
+/-- `ResourceSubscription.Unsubscribe(sub)`: `none` if the subscriber is not (or no longer) a
+    subscriber of the resource — a delete event or an error answer it has not processed yet
+    already released it —, otherwise the entry without it (the caller then gives back one use). -/
+def Entry.release (e : Entry) (rs : Nat) (sub : SubRef) : Option Entry :=
+  if (tget e.ress rs).subs.contains sub then some (e.dropSub rs sub) else none
+
 def sendGet (eid rs : Nat) (query : String) (reset : Bool) (t : Option Nat) : M Unit := do
   match t with
   | none =>
@@ -215,8 +221,11 @@ def runCItem (eid : Nat) (it : CItem) : M Unit := do
       if !asked then cacheEnqueueUnlock eid .noop
       else registerReq subject s!"query={q}" (.query eid rs)
   | .unsubscribe rs sub =>
-    modEntry eid fun e => e.dropSub rs sub
-    removeCount eid 1
+    match (← getEntry eid).release rs sub with
+    | none => pure ()                    -- already released by a delete event or an error answer
+    | some e' =>
+      setEntry eid e'
+      removeCount eid 1
   | .accessDone sub a th =>
     let _ ← connEnqueue sub.cid (.accessAnswer sub.uid a)
     throttleDone th
